@@ -41,7 +41,8 @@ type Report struct {
 	Assume   []string
 	Trusted  []string
 	Stable   func(string) string // construct → rename-stable form (set after loading)
-	cfg      string // current configuration label
+	verifDir string
+	cfg      string              // current configuration label
 	floor    map[string]int
 	count    map[string]int
 	start    time.Time
@@ -150,9 +151,22 @@ func loadKnown(path string) ([]KnownFinding, error) {
 // Import copies the obligations that a sibling property's rule set produced (run on the same program) into this report
 // under the given rule id; only the sibling rules accepted by keep are taken. Unmet floors of those rules become undecided.
 func (r *Report) Import(sub *Report, asRule string, keep func(rule string) bool) {
+	known, _ := loadKnown(filepath.Join(r.verifDir, "known_findings.json"))
 	for _, o := range sub.Obls {
 		if !keep(o.Rule) {
 			continue
+		}
+		if o.Verdict == Violated {
+			// a finding recorded under the sibling property is reported there, not a second time here
+			listed := false
+			for _, k := range known {
+				if k.Status == "known" && k.Property == sub.Prop && k.Rule == o.Rule && (k.Construct == o.Construct || (k.Stable != "" && r.Stable != nil && k.Stable == r.Stable(o.Construct))) {
+					listed = true
+				}
+			}
+			if listed {
+				continue
+			}
 		}
 		n := o
 		n.Construct = o.Rule + ": " + o.Construct
